@@ -22,7 +22,8 @@
 (*                  document at TWO members.                                         *)
 EXTENDS BuilderMachine, Json
 
-CONSTANTS Mode, Ids, Fuel, MaxLen, Langs
+CONSTANTS Mode, Ids, Fuel, MaxLen, Langs,
+          Win, From      \* sequences of 2 / 3 calls use a window of Win options starting after option From (Win = 0: all options)
 
 VARIABLES si, lang, seq, obj, errs, raised, bad, vk, vv
 vars == <<si, lang, seq, obj, errs, raised, bad, vk, vv>>
@@ -48,7 +49,8 @@ Catalogue == <<
     Def("Root", TStruct(<<
       F("id", TInt("int64", Ge(0), Le(2))), F("idx", I64), F("name", TStr(1, 2)), F("kind", TConst(JStr("x"))),
       FOpt("ratio", TNum("float64", Gt(0), NoB)), F("tags", TArr(TStr(1, -1))), F("labels", TMap(TStr(1, -1))),
-      F("child", TRef("Child")), FOpt("oc", TRef("Child")), FOpt("note", Str), F("flag", TBool)>>)),
+      F("child", TRef("Child")), FOpt("oc", TRef("Child")), FOpt("note", Str), F("flag", TBool),
+      FOpt("ob", TBool), FOpt("oi", I64), FOpt("nOte", TStr(-1, 2))>>)),     \* note / nOte: names that differ only in letter case
     Child>>, <<>>),
   \* every default satisfies the schema: a swallowed error cannot hide behind another one
   Entry("valid-defaults", <<RootValid, Kid, Leaf>>, <<>>),
@@ -63,19 +65,55 @@ Catalogue == <<
   Entry("ctor", <<RootValid, Kid, Leaf>>,
         <<Rule("ctor", "Root", "", <<"id", "name">>), Rule("ctor", "Kid", "", <<"kid">>)>>),
   \* struct fields as arguments: one option, several assignments behind one (nullable / non-nullable) prefix
-  Entry("args", <<RootValid, Kid, Leaf>>,
-        <<Rule("args", "Root", "ok", <<"kid", "kname">>), Rule("args", "Root", "req", <<"n", "f">>)>>),
+  Entry("args", <<
+    Def("Root", TStruct(<<
+      F("id", TInt("int64", Ge(0), Le(2))), F("name", TStr(-1, 2)), FOpt("ok", TRef("Kid")), F("k", TRef("Kid")), F("req", TRef("Leaf")),
+      F("mix", TRef("Mix")), FOpt("omix", TRef("Mix2"))>>)),
+    \* constrained scalars directly followed by collections / a reference, in declaration order AND in alphabetical order
+    Def("Mix", TStruct(<<F("a", TStr(1, 2)), F("at", TArr(Str)), F("b", TInt("int64", Ge(1), Le(2))), F("bm", TMap(Str)),
+                         F("c", TNum("float64", NoB, Lt(2))), F("cl", TRef("Leaf"))>>)),
+    Def("Mix2", TStruct(<<F("tags", TArr(TStr(1, -1))), F("u", TStr(2, -1)), F("v", TArr(I64))>>)),
+    Kid, Leaf>>,
+        <<Rule("args", "Root", "ok", <<"kid", "kname">>), Rule("args", "Root", "req", <<"n", "f">>),
+          Rule("args", "Root", "mix", <<"a", "at", "b", "bm", "c", "cl">>), Rule("args", "Root", "omix", <<"tags", "u", "v">>)>>),
   \* options obtained by COPYING veneers: option duplicate, rename_arguments, builder duplicate (every constrained option
   \* of the copies is called with violating arguments; the copied builder is used wherever the object is nested)
   Entry("copied-options", <<RootValid, Kid, Leaf>>,
-        <<Rule("dup", "Root", "id", <<"id2">>), Rule("dup", "Root", "tags", <<"tags2">>), Rule("renarg", "Root", "name", <<"label">>),
+        <<Rule("dup", "Root", "id", <<"id2">>), Rule("dup", "Root", "id", <<"id3">>), Rule("dup", "Root", "tags", <<"tags2">>), Rule("renarg", "Root", "name", <<"label">>),
           Rule("renarg", "Leaf", "n", <<"count">>), Rule("dup", "Leaf", "f", <<"f2">>), Rule("bdup", "Kid", "KidCopy", <<>>)>>),
   \* collections of collections with item constraints: array of arrays, map of arrays, array of maps
   Entry("nested-collections", <<
     Def("Root", TStruct(<<
       F("matrix", TArr(TArr(TStr(1, -1)))), FOpt("ma", TMap(TArr(TInt("int64", Ge(0), NoB)))), FOpt("am", TArr(TMap(TStr(1, -1)))),
-      FOpt("mm", TMap(TMap(TInt("int64", NoB, Le(2))))), F("cells", TArr(TArr(TRef("Leaf")))), F("w", Str)>>)),
+      FOpt("mm", TMap(TMap(TInt("int64", NoB, Le(2))))), F("cells", TArr(TArr(TRef("Leaf")))), F("w", Str),
+      FOpt("cube", TArr(TArr(TArr(TStr(1, -1)))))>>)),
     Leaf>>, <<>>),
+  \* options that share a constant side assignment (veneer add_assignment): graphMode, graphWidth and legend all force ctype = "ab"; the plain option of ctype comes first in every input format
+  Entry("side-assignments", <<
+    Def("Root", TStruct(<<F("ctype", Str), F("title", Str), FOpt("graphMode", Str), F("graphWidth", I64), FOpt("legend", TBool)>>))>>,
+    <<Rule("side", "Root", "graphMode", <<"ab", "ctype">>), Rule("side", "Root", "graphWidth", <<"ab", "ctype">>),
+      Rule("side", "Root", "legend", <<"ab", "ctype">>)>>),
+  \* veneer paths of two / three segments through OPTIONAL struct references (merge_into under_path, initialize)
+  Entry("veneer-paths", <<
+    Def("Root", TStruct(<<F("title", Str), FOpt("inner", TRef("Inner")), FOpt("other", TRef("Inner"))>>)),
+    Def("Inner", TStruct(<<FOpt("deep", TRef("Deep")), F("iw", Str)>>)),
+    Def("Deep", TStruct(<<F("label", Str), F("mark", Str)>>))>>,
+    <<Rule("merge", "Root", "Deep", <<"inner", "deep">>), Rule("init", "Root", "", <<"ab", "other", "deep", "mark">>)>>),
+  \* references to NAMED constants: required (the builder fixes it), optional and nullable (an option that may be left alone)
+  Entry("const-refs", <<
+    Def("Root", TStruct(<<F("kind", TRef("Kind")), FOpt("altKind", TRef("Kind")), FOpt("version", TRef("Version")), F("title", Str),
+                          FOpt("sub", TRef("CSub"))>>)),
+    Def("CSub", TStruct(<<F("kind", TRef("Kind")), FOpt("alt", TRef("Kind")), F("n", I64)>>)),
+    Def("Kind", TConst(JStr("outer"))), Def("Version", TConst(JInt(2)))>>, <<>>),
+  \* nullable items inside collections
+  Entry("nullable-items", <<
+    Def("Root", TStruct(<<FOpt("nl", TArr(TNullable(TStr(1, -1)))), F("rl", TArr(TNullable(TInt("int64", Ge(0), NoB)))), F("w", Str)>>))>>, <<>>),
+  \* references through two and three aliases before the struct / the constrained scalar, aliases declared before their targets
+  Entry("aliases", <<
+    Def("Root", TStruct(<<FOpt("ka", TRef("KidA")), F("kb", TRef("KidB")), F("kas", TArr(TRef("KidA"))), F("p", TRef("Port")),
+                          FOpt("pb", TRef("PortB")), F("w", Str)>>)),
+    Def("KidB", TRef("KidA")), Def("KidA", TRef("Kid")), Kid,
+    Def("PortB", TRef("PortA")), Def("PortA", TRef("Port")), Def("Port", TInt("int64", Ge(0), Le(2)))>>, <<>>),
   \* OPTIONAL scalars (and an optional reference) promoted to constructor arguments
   Entry("ctor-optional", <<
     Def("Root", TStruct(<<F("uid", TStr(1, -1)), FOpt("nick", Str), FOpt("age", TInt("int64", Ge(0), NoB)), FOpt("ok", TRef("Kid")),
@@ -130,12 +168,13 @@ Catalogue == <<
       FOpt("oinl", TStruct(<<F("w", TStr(1, -1))>>)),
       FOpt("e", TEnum(<<"a", "b">>)), F("re", TEnum(<<"a", "b">>)), FOpt("ie", TIEnum(<<1, 2>>)),
       FOpt("when", TTime), F("an", TAny), FOpt("aa", TArr(TArr(Str))), F("f32", TNum("float32", NoB, Le(2))),
-      F("u8", TInt("uint8", NoB, NoB)), FOptNull("on", Str)>>))>>, <<>>),
+      F("u8", TInt("uint8", NoB, NoB)), FOptNull("on", Str), FNull("nn", TStr(-1, 2))>>))>>, <<>>),
   \* declared defaults
   Entry("defaults", <<
     Def("Root", TStruct(<<
       FDef("s", TStr(1, -1), JStr("ab")), FDef("b", TBool, JBool(TRUE)), FDef("i", TInt("int64", Ge(0), NoB), JInt(1)),
-      FDef("n", TNum("float64", NoB, NoB), JNum(15)), F("plain", Str), FOpt("od", TRef("WithDef"))>>)),
+      FDef("n", TNum("float64", NoB, NoB), JNum(15)), F("plain", Str), FOpt("od", TRef("WithDef")),
+      FDef("z", I64, JInt(0)), FDef("fb", TBool, JBool(FALSE)), FDef("es", Str, JStr(""))>>)),      \* defaults equal to the zero values
     Def("WithDef", TStruct(<<FDef("ds", Str, JStr("x")), F("dn", I64)>>))>>, <<>>)
 >>
 
@@ -158,9 +197,9 @@ ZeroOf(S, t) ==
     [] t.k = "time"   -> JStr("0001-01-01T00:00:00Z")
     [] OTHER          -> JNull
 DefaultDoc(S, t) ==
-  LET inc == SelectSeq(t.fields, LAMBDA f : IsConst(f) \/ f.def.j # "none" \/ f.req)
+  LET inc == SelectSeq(t.fields, LAMBDA f : IsConstF(S, f) \/ f.t.k = "const" \/ f.def.j # "none" \/ f.req)
   IN JObj([i \in DOMAIN inc |->
-             P(inc[i].n, IF IsConst(inc[i]) THEN inc[i].t.v
+             P(inc[i].n, IF IsConstF(S, inc[i]) THEN ConstVal(S, inc[i])
                          ELSE IF inc[i].def.j # "none" THEN inc[i].def
                          ELSE IF inc[i].null THEN JNull ELSE ZeroOf(S, inc[i].t))])
 
@@ -172,14 +211,16 @@ SpecD(schema) ==
 RECURSIVE Flat(_)
 Flat(ss) == IF ss = <<>> THEN <<>> ELSE Head(ss) \o Flat(Tail(ss))
 \* "one option per field that is not a constant, one assignment per option derived from the field path"
-Derive(t) ==
-  LET fs == SelectSeq(t.fields, LAMBDA f : ~IsConst(f)) IN
+Derive(S, t) ==
+  LET fs == SelectSeq(t.fields, LAMBDA f : ~IsConstF(S, f)) IN
   [i \in DOMAIN fs |-> Opt(fs[i].n, <<fs[i].t>>, <<Asg(<<fs[i].n>>, "direct", 1, 0)>>)]
 ApplyRule(S, r, opts) ==
   Flat([i \in DOMAIN opts |->
     LET o == opts[i] IN
     IF r.k = "flavour" THEN (IF o.name = r.fields[1] THEN <<>> ELSE <<o>>)     \* the flavours hide the option they fix
     ELSE IF r.k \in {"renarg", "bdup"} THEN <<o>>       \* renamed arguments / a second builder for the object: same options
+    ELSE IF r.k = "side" THEN (IF o.name = r.field THEN <<Opt(o.name, o.args, Append(o.asgs, AsgC(Tail(r.fields), JStr(r.fields[1]))))>> ELSE <<o>>)
+    ELSE IF r.k \in {"init", "merge"} THEN <<o>>      \* a constructor constant at a (dotted) path: part of the fresh builder's object
     ELSE IF r.k = "dup" THEN (IF o.name = r.field THEN <<o, Opt(r.fields[1], o.args, o.asgs)>> ELSE <<o>>)   \* option duplicate
     ELSE IF r.k = "ctor" \/ o.name # r.field THEN <<o>>
     ELSE CASE r.k = "unfold" ->
@@ -201,8 +242,16 @@ ApplyRules(S, key, rules, opts) ==
   IF rules = <<>> THEN opts
   ELSE ApplyRules(S, key, Tail(rules), IF Head(rules).obj = key THEN ApplyRule(S, Head(rules), opts) ELSE opts)
 Promoted(key, rules) == Flat([i \in DOMAIN rules |-> IF rules[i].k = "ctor" /\ rules[i].obj = key THEN rules[i].fields ELSE <<>>])
+\* merge_into: the options of the source builder join the destination's, their paths below under_path
+Merged(S, key, rules) ==
+  Flat([i \in DOMAIN rules |->
+          IF rules[i].k = "merge" /\ rules[i].obj = key
+          THEN LET src == Derive(S, S[rules[i].field]) IN
+               [j \in DOMAIN src |-> Opt(src[j].name, src[j].args,
+                                          [a \in DOMAIN src[j].asgs |-> Asg(rules[i].fields \o src[j].asgs[a].path, src[j].asgs[a].m, src[j].asgs[a].src, src[j].asgs[a].key)])]
+          ELSE <<>>])
 BuilderOf(S, key, t, rules) ==
-  LET all  == ApplyRules(S, key, rules, Derive(t))
+  LET all  == ApplyRules(S, key, rules, Derive(S, t) \o Merged(S, key, rules))
       prom == Promoted(key, rules)
       pos(n) == CHOOSE i \in DOMAIN all : all[i].name = n
   IN [key |-> key,
@@ -235,13 +284,19 @@ Tuples(S, o, n) ==
   IF Len(o.args) = 0 THEN {<<>>}
   ELSE IF Len(o.asgs) = 1 /\ o.asgs[1].m = "index"
   THEN {<<k, v>> : k \in (IF n = 1 THEN MapKeys ELSE {JStr("k1")}), v \in Small(S, o.args[2], n)}
+  ELSE IF Len(o.args) >= 3 /\ \A i \in DOMAIN o.asgs : o.asgs[i].src > 0
+  THEN \* many arguments (struct fields as arguments): the base tuple with ONE argument varied at a time
+       LET base == [i \in DOMAIN o.args |-> Base(S, o.args[i], Fuel)] IN
+       {base} \cup UNION {{[base EXCEPT ![i] = v] : v \in Small(S, o.args[i], n)} : i \in DOMAIN o.args}
   ELSE Prod(S, o.args, n, 1)
 CallTab ==
   [i \in DOMAIN Catalogue |->
      LET S == DefsFn(Catalogue[i].schema) b == Builders(Catalogue[i])["Root"] IN
      [n \in 1..MaxLen |->
         [ctor |-> {[o |-> 0, as |-> as] : as \in Tuples(S, b.ctor, n)},
-         opts |-> UNION {{[o |-> k, as |-> as] : as \in Tuples(S, b.opts[k], n)} : k \in DOMAIN b.opts}]]]
+         opts |-> UNION {{[o |-> k, as |-> as] : as \in Tuples(S, b.opts[k], n)} :
+                           k \in (IF n < 2 \/ Win = 0 THEN DOMAIN b.opts
+                                  ELSE {((From + j) % Len(b.opts)) + 1 : j \in 0..(Win - 1)} \cap DOMAIN b.opts)}]]]
 BTab == [i \in DOMAIN Catalogue |-> Builders(Catalogue[i])]
 DTab == [i \in DOMAIN Catalogue |-> SpecD(Catalogue[i].schema)]
 STab == [i \in DOMAIN Catalogue |-> DefsFn(Catalogue[i].schema)]
@@ -284,21 +339,27 @@ MergeTop(t, b, x, y) ==
   LET src(n) == IF n = x.p[1] THEN x.d ELSE IF n = y.p[1] THEN y.d ELSE b
       inc == SelectSeq(t.fields, LAMBDA f : src(f.n).j = "obj" /\ Has(src(f.n).ps, f.n))
   IN JObj([i \in DOMAIN inc |-> P(inc[i].n, Get(src(inc[i].n).ps, inc[i].n))])
-PairsOf(S, t) ==
-  LET b  == Base(S, t, Fuel)
-      vs == {x \in Variants(S, t, Fuel) : x.p # <<>> /\ x.f \in {"alt", "base"} /\ x.d.j = "obj"}
+PairsFrom(S, t, fuel) ==
+  LET b  == Base(S, t, fuel)
+      vs == {x \in Variants(S, t, fuel) : x.p # <<>> /\ x.f \in {"alt", "base"} /\ x.d.j = "obj"}
   IN {d \in UNION {{MergeTop(t, b, x, y) : y \in {z \in vs : FieldIdx(t, z.p[1]) > FieldIdx(t, x.p[1])}} : x \in vs} :
         Accepts(S, t, d) /\ Expressible(S, t, d)}
+\* from the document with all optional members and from the one with none
+PairsOf(S, t) == PairsFrom(S, t, Fuel) \cup PairsFrom(S, t, 0)
+\* what an `initialize` veneer makes the constructor set is part of every value the builder can produce
+InitsHold(i, key, v) ==
+  \A j \in DOMAIN Catalogue[i].rules :
+    LET r == Catalogue[i].rules[j] IN (r.k = "init" /\ r.obj = key) => SameObj(AtPath(v, Tail(r.fields)), JStr(r.fields[1]))
 InitPairs ==
   /\ si \in (Ids \cap DOMAIN Catalogue) /\ lang = "go"
   /\ seq = <<>> /\ obj = Marker /\ errs = {} /\ raised = <<>> /\ bad = <<>>
   /\ vk = "Root"
-  /\ vv \in PairsOf(STab[si], STab[si]["Root"])
+  /\ vv \in {x \in PairsOf(STab[si], STab[si]["Root"]) : Coherent(STab[si], STab[si]["Root"], DTab[si], "Root", BTab[si]["Root"], x) /\ InitsHold(si, "Root", x)}
 InitValues ==
   /\ si \in (Ids \cap DOMAIN Catalogue) /\ lang = "go"
   /\ seq = <<>> /\ obj = Marker /\ errs = {} /\ raised = <<>> /\ bad = <<>>
   /\ vk \in {d.name : d \in {x \in Range(Catalogue[si].schema.defs) : x.t.k = "struct"}}
-  /\ vv \in ValuesOf(STab[si], STab[si][vk])
+  /\ vv \in {x \in ValuesOf(STab[si], STab[si][vk]) : Coherent(STab[si], STab[si][vk], DTab[si], vk, BTab[si][vk], x) /\ InitsHold(si, vk, x)}
 InitIndex ==
   /\ si \in DOMAIN Catalogue /\ lang = "go" /\ seq = <<>> /\ obj = Marker /\ errs = {} /\ raised = <<>> /\ bad = <<>> /\ vk = "" /\ vv = Marker
 
